@@ -140,7 +140,7 @@ def same_shape(p, q):
 
 
 # ---- harness driver
-def run_cases(exe, cases, d, tag="asm", cpu_s=20):
+def run_cases(exe, cases, d, tag="asm", cpu_s=20, flags="-"):
     """cases: [{'id','src',...}] -> list of result dicts aligned with cases (status ok/error/timeout/crash)"""
     cf = os.path.join(d, tag + ".cases.ndjson")
     of = os.path.join(d, tag + ".out.ndjson")
@@ -156,7 +156,7 @@ def run_cases(exe, cases, d, tag="asm", cpu_s=20):
         guard += 1
         if guard > 200:
             raise vlib.MachineryError("asm_case restarted too often")
-        p = vlib.sh([exe, cf, of, scratch, str(start), str(cpu_s)], timeout=7200)
+        p = vlib.sh([exe, cf, of, scratch, str(start), str(cpu_s), flags], timeout=7200)
         got = vlib.read_ndjson(of)
         for r in got:
             results[r['idx']] = r
@@ -417,7 +417,7 @@ def layout_pipeline(tier, d, rng, exe):
     import corpus
     tdir = corpus.tools()
     cases += corpus_cases(d, tdir)
-    res = run_cases(exe, cases, d, "lay")
+    res = run_cases(exe, cases, d, "lay", flags="p")
     recs, keep, notes = [], [], []
     for c, r in zip(cases, res):
         if r['status'] != 'ok' or c.get('notlc'):
@@ -425,3 +425,32 @@ def layout_pipeline(tier, d, rng, exe):
         rec, note = tlc_record(c, r)
         recs.append(rec); keep.append(c); notes.append(note)
     return cases, res, recs, keep, notes, tdir
+
+
+def relax_records(cases, res, rng, limit):
+    """mechanism-conformance records (AsmRelaxV): programs with label references, the passes hexasm made"""
+    out = []
+    for c, r in zip(cases, res):
+        if r['status'] != 'ok' or 'passes' not in r or not any(x['k'] == 'ref' for x in c['prog']):
+            continue
+        if any(x['k'] == 'imm' and x['v'] == -2 ** 31 for x in c['prog']) or len(c['prog']) > 1500:
+            continue
+        prog = []
+        for x in c['prog']:
+            k = x['k']
+            if k == 'lab':
+                prog.append({'k': 'lab', 'n': x['n']})
+            elif k == 'ref':
+                prog.append({'k': 'rel' if x['rel'] else 'abs', 'n': x['n']})
+            elif k == 'imm':
+                prog.append({'k': 'imm', 'v': x['v']})
+            elif k == 'opr':
+                prog.append({'k': 'opr'})
+            else:
+                prog.append({'k': 'data'})
+        if len(r['passes']) and len(r['passes'][0]['d']) != len(prog) + 0:
+            # the hook sees the directive list before the trailing PADDING directive is appended
+            continue
+        out.append({'id': c['id'], 'prog': prog, 'passes': r['passes']})
+    rng.shuffle(out)
+    return out[:limit]
